@@ -525,6 +525,13 @@ def run_case(case, col, verbose=False):
     col.evaluations += 1
     tm, sm = src.treatment_mapping, src.sample_mapping
     mtype = mp["type"]
+    if mp.get("source_other") is not None:
+        other = build(mp["source_other"], control)
+        col.evaluations += 1
+        if mp["which"] == "treatment":
+            sm = other.sample_mapping
+        else:
+            tm = other.treatment_mapping
     head = f"{_describe(spec, control)} with the {mtype} mapping of {_describe(src_spec, control)}"
     if mtype == "nondense":
         how, which = mp["how"], mp["which"]
@@ -579,31 +586,10 @@ def _mapping_cases(spec, control):
             rest = [r for r in range(n) if r != j]
             for which in ("treatment", "sample"):
                 if uncovered_by_drop(spec, control, j, which):
-                    # the other dimension's mapping is S's own so that only `which` is uncovered
+                    # the other dimension's mapping is S's own, so that only `which` is uncovered
                     yield {"kind": "screen", "control": control, "spec": spec,
-                           "mapping": {"type": "uncovered", "which": which, "source": _mix(spec, rest, which)}}
-
-
-def _mix(spec, rest, which):
-    """Source screen whose `which` dimension lacks row j but whose other dimension still covers S:
-    rows `rest` in the lacking dimension; the other dimension keeps all of S's values by padding."""
-    # Build the source from the remaining rows, then append rows that re-add ONLY the other dimension's values.
-    src = sub_spec(spec, rest)
-    n = len(spec["tn"])
-    j = [r for r in range(n) if r not in rest][0]
-    if which == "treatment":
-        # keep sample j's name, with the treatment cells of a remaining row
-        src["tn"].append(list(spec["tn"][rest[0]]))
-        src["td"].append(list(spec["td"][rest[0]]))
-        src["sn"].append(spec["sn"][j])
-        src["pn"].append(spec["pn"][j])
-    else:
-        # keep row j's treatment cells, under a remaining row's sample name
-        src["tn"].append(list(spec["tn"][j]))
-        src["td"].append(list(spec["td"][j]))
-        src["sn"].append(spec["sn"][rest[0]])
-        src["pn"].append(spec["pn"][j])
-    return src
+                           "mapping": {"type": "uncovered", "which": which, "source": sub_spec(spec, rest),
+                                       "source_other": spec}}
 
 
 def _nondense_cases(spec, control, tm_ids, sm_ids):
